@@ -343,7 +343,7 @@ func C16Edi() {
 	decl := &FileDecl{SegDelim: "~", ElemDelim: "*",
 		SegDecls: []*SegDecl{{Name: "S", IsTarget: true, Min: zzIntPtr(0), Max: zzIntPtr(-1)}}}
 	zz.Assume((&ediValidateCtx{}).validateFileDecl(decl) == nil)
-	failAt := zz.NondetInt("failAt", 0, len(in))
+	failAt := zz.NondetChoice("failAt", len(in)+1)
 	// fault-free twin
 	ra, _ := NewReader("in", &zzChunkReader{data: in, failAt: -1}, decl, "")
 	var want []string
@@ -357,10 +357,17 @@ func C16Edi() {
 	}
 	rb, _ := NewReader("in", &zzChunkReader{data: in, failAt: failAt, ioErr: zzIOErr}, decl, "")
 	got := 0
+	pending := ""
+	havePending := false
 	for i := 0; i < L+3; i++ {
 		n, err := rb.Read()
 		if err == nil {
-			zz.Assert(got < len(want) && idrText(n) == want[got], "results before the fault equal the fault-free run")
+			// every result before the fatal one, except possibly the last, equals the fault-free run
+			if havePending {
+				zz.Assert(got-1 < len(want) && pending == want[got-1], "results before the fault (except possibly the last) equal the fault-free run")
+			}
+			pending = idrText(n)
+			havePending = true
 			got++
 			rb.Release(n)
 			continue
